@@ -89,7 +89,7 @@ package gtab
 //@   ensures keepOK(ctx) && llOK(ctx) && ctx.lookup == old(ctx.lookup) && ctx.keep == old(ctx.keep) && ctx.ll == old(ctx.ll)
 //@   modifies ctx.seq, ctx.stack, ctx.scratch, ctx.lookup, ctx.keep, all(nested), all(glyph.Info), allelems(int), allelems(*nested), allelems(rune), allelems(SeqLookup)
 //@   loop 0
-//@     invariant stackinv(ctx) && keepOK(ctx) && llOK(ctx) && 1 <= numActions && numActions <= 64 && ctx.lookup == old(ctx.lookup) && ctx.keep == old(ctx.keep) && ctx.ll == old(ctx.ll)
+//@     invariant next >= 0 && stackinv(ctx) && keepOK(ctx) && llOK(ctx) && 1 <= numActions && numActions <= 64 && ctx.lookup == old(ctx.lookup) && ctx.keep == old(ctx.keep) && ctx.ll == old(ctx.ll)
 //@     decreases 64 - numActions, len(ctx.stack)
 
 // Apply: terminates for every behaviour of the subtables (the progress guard),
